@@ -264,19 +264,22 @@ class MathModel:
 # --------------------------------------------------------------------------- the interpreter
 
 class Interp:
-    def __init__(self, frontend, series_keys=None, summaries=None):
+    def __init__(self, frontend, series_keys=None, summaries=None, series_canon=None):
         self.fe = frontend
         self.modules = {}
         self.stack = []          # call chain: (qualname, module, call-site lineno)
         self.calls = 0
         self.steps = 0
         self.series_keys = series_keys or []
+        self.series_canon = series_canon or {}
         self.summaries = summaries or {}
         self.trace_calls = None  # optional callback(fobj, args) for rules
         self.check_beartype = True
         self.cur = []            # stack of (module, node) being evaluated
         self.series_sites = []   # (module, lineno, key, squared, argument poly)
         self.loading = []
+        self.ew_hook = None      # callback(node, module, left MatVal, right MatVal, how) on element-wise products
+        self.series_hook = None  # callback(node, module, SeriesFn, argument MatVal)
 
     # ---- modules
     def load(self, name):
@@ -289,8 +292,8 @@ class Interp:
         env.is_module = True
         self.modules[name] = env
         if name == "cyecca.symbolic":
-            env["SERIES"] = cm.SeriesDict(False, self.series_keys)
-            env["SQUARED_SERIES"] = cm.SeriesDict(True, self.series_keys)
+            env["SERIES"] = cm.SeriesDict(False, self.series_keys, self.series_canon)
+            env["SQUARED_SERIES"] = cm.SeriesDict(True, self.series_keys, self.series_canon)
             for k in ("taylor_series_near_zero", "sympy_to_casadi", "casadi_to_sympy", "derive_series"):
                 env[k] = Stub("cyecca.symbolic." + k)
             env["__all__"] = ["taylor_series_near_zero", "sympy_to_casadi", "SERIES", "SQUARED_SERIES", "casadi_to_sympy"]
@@ -964,6 +967,8 @@ class Interp:
             if on == "Sub":
                 return cm.ew(l, r, cm.psub)
             if on == "Mult":
+                if self.ew_hook is not None and isinstance(l, MatVal) and isinstance(r, MatVal):
+                    self.ew_hook(n, self.cur[-1][0] if self.cur else None, l, r, "*")
                 return cm.ew(l, r, cm.pmul)
             if on == "Div":
                 return cm.ew(l, r, cm.pdiv)
@@ -1162,6 +1167,10 @@ class Interp:
             return f(*args, node=n, module=module or (self.cur[-1][0] if self.cur else None), **kw)
         if isinstance(f, ExcClass):
             return f(*args)
+        if f is cm.times and self.ew_hook is not None and len(args) == 2 and all(isinstance(x, MatVal) for x in args):
+            self.ew_hook(n, self.cur[-1][0] if self.cur else None, args[0], args[1], "ca.times")
+        if isinstance(f, cm.SeriesFn) and self.series_hook is not None and args:
+            self.series_hook(n, self.cur[-1][0] if self.cur else None, f, args[0])
         if callable(f):
             key = getattr(f, "__qualname__", None)
             try:
